@@ -1,11 +1,228 @@
 import SageModel.Proto
+import SageModel.Model.C13
 
-/-! Driver ops for C13 (stub: no ops yet). -/
+/-! Driver ops for C13 (formats: see `harness/src/ops/c13.rs`).
+
+```
+DB    := gd tag npep { decoy seq nmod { pos f32 } nterm(opt f32) cterm(opt f32) nprot { name } }
+FEATS := nfeat { peptide_idx score(f32) }
+pickpep | pickprot  DB FEATS | passing nfeat { q }  ntab { score pep }  nord { psm-index }     (or `panic`)
+pickprec n { kind ix charge decoy score(f64) } | passing n { q } nord { entry-index }
+permpep | permprot  DB FEATS nperm { i } | passingA n { qA } passingB n { qB }
+permprec n {…} nperm { i } | passingA n { qA } passingB n { qB }
+```
+
+The model runs at `σ := Int` (the `total_cmp` key of the f32 score: the order the sort uses) and
+`α := Float32`: the same additions, divisions and comparisons in the same order as the Rust code.
+
+What is compared, and how exactly:
+* `pickprec`: bit-exact (counts only; `usize as f32` casts and one IEEE division per row).
+* `pickpep` / `pickprot`: the PEP of each row score is DATA taken from the implementation's fitted
+  estimator (`ntab`). With it the model's float operations are the code's, so q-values normally agree bit
+  for bit. They are nevertheless compared within `rows + 2` ulp: the harness has to fit its own copy of the
+  estimator (the one inside `assign_q_value` is not reachable) and the fit is a long f64 summation whose
+  last bits depend on the sample order (= hash-map iteration order); a PEP that differs in its last f32 bit
+  moves the running `decoy` sum by at most one ulp per row (`decoy ≥ 1 ≥ pep`). Structure (who shares a q,
+  the passing count, panics) is exact. The reported iteration order (`nord`) is no longer used: since /repo
+  1f05eb8 the sort key (score, decoy flag, index) is total and the model's result is the same for every
+  order (`order_invariant`).
+* `perm*`: implementation against itself under a permutation of the supply order, same bound (the two
+  fits see their samples in different orders). Any difference beyond it is a violation:
+  `bad:order_dependent` (no repeated score) / `bad:order_dependent_tie` (some rows share a score).
+-/
 namespace Sage.C13
 open Sage.Proto
 
+/-- key of an f32 bit pattern in `total_cmp` order -/
+def scoreKey (bits : Nat) : Int :=
+  if bits ≥ 2147483648 then -((bits - 2147483648 : Nat) : Int) - 1 else (bits : Int)
+
+/-- `f32::MIN` = 0xFF7FFFFF -/
+def botKey : Int := scoreKey 4286578687
+/-- `-∞` -/
+def negInfKey : Int := scoreKey 4286578688
+
+def thrPep : Float32 := Float32.ofBits 1008981770   -- 0.01f32
+def thrPrec : Float32 := Float32.ofBits 1028443341  -- 0.05f32
+
+def pPep : P Pep := do
+  let decoy ← bool
+  let seq ← bytes
+  let mods ← list (do let i ← nat; let b ← nat; pure (i, b))
+  let nterm ← opt nat
+  let cterm ← opt nat
+  let prots ← list str
+  let modv := (List.range seq.length).map fun i =>
+    match mods.reverse.find? (fun m => m.1 == i) with
+    | some m => m.2
+    | none => 0
+  pure { decoy, seq := seq.map (·.toNat), mods := modv, nterm, cterm, prots }
+
+def pDb : P (Bool × String × List Pep) := do
+  let gd ← bool
+  let tag ← str
+  let peps ← list pPep
+  pure (gd, tag, peps)
+
+def pFeats : P (List (Nat × Nat)) := list (do let i ← nat; let s ← nat; pure (i, s))
+
+def f32OfBits (b : Nat) : Float32 := Float32.ofBits b.toUInt32
+
+def renderResult (passing : Nat) (qs : List Float32) : String :=
+  toString passing ++ " " ++ outList outF32 qs
+
+def pResult : P (Nat × List Nat) := do
+  let p ← nat
+  let q ← list nat
+  pure (p, q)
+
+def nodup {β} [DecidableEq β] (l : List β) : Bool := l.eraseDups.length == l.length
+
+def withinUlps (tol : Nat) (a b : List Float32) : Bool :=
+  a.length == b.length && (a.zip b).all fun p => ulpDistF32 p.1 p.2 ≤ tol
+
+def isPerm (n : Nat) (l : List Nat) : Bool := l.length == n && nodup l && l.all (· < n)
+
+/-- PSM list of the peptide level -/
+def pepPsms (gd : Bool) (peps : List Pep) (feats : List (Nat × Nat)) : Option (List (Psm PepKey Nat Int)) :=
+  feats.mapM fun f => do
+    let p ← peps[f.1]?
+    pure { key := pepKey gd p, decoy := p.decoy, ix := f.1, score := scoreKey f.2 }
+
+/-- PSM list of the protein level: key = the protein list, stored index = the joined string -/
+def protPsms (gd : Bool) (tag : String) (peps : List Pep) (feats : List (Nat × Nat)) :
+    Option (List (Psm (List String) String Int)) :=
+  feats.mapM fun f => do
+    let p ← peps[f.1]?
+    pure { key := p.prots, decoy := p.decoy, ix := p.proteinStr tag gd, score := scoreKey f.2 }
+
+section generic
+variable {κ ι : Type} [DecidableEq κ] [DecidableEq ι] [LE ι] [DecidableLE ι]
+
+def pickReply (psms : List (Psm κ ι Int)) (impl : List String) : Reply :=
+  let es0 := competition botKey psms
+  let zero : Float32 := 0
+  let one : Float32 := 1
+  -- does the index lookup panic? (independent of pep values and of the iteration order)
+  let panics := (pickedWith (fun _ => zero) Float32.ofNat one thrPep es0 psms).isNone
+  if impl == ["panic"] then
+    if panics then { model := "panic", agree := true, spec := "na" }
+    else { model := "no-panic", agree := false, spec := "bad:panic" }
+  else
+  match run (do
+      let r ← pResult
+      let tab ← list (do let s ← nat; let p ← nat; pure (scoreKey s, f32OfBits p))
+      let ord ← list nat
+      pure (r, tab, ord)) impl with
+  | none => { model := "unparsed-impl-reply", agree := false, spec := "na" }
+  | some ((ip, iq), tab, ord) =>
+    let iqs := iq.map f32OfBits
+    let spec := specVerdict botKey zero one thrPep psms iqs ip
+    if panics then { model := "panic", agree := false, spec := spec } else
+    let rows := rowsOf es0
+    if !(rows.all fun r => tab.any fun t => t.1 == r.score) then
+      { model := "pep-table-incomplete", agree := false, spec := spec } else
+    let _ := ord
+    let es := es0
+    let pep (s : Int) : Float32 := match tab.find? (fun t => t.1 == s) with
+      | some t => t.2
+      | none => zero
+    match pickedWith pep Float32.ofNat one thrPep es psms with
+    | none => { model := "panic", agree := false, spec := spec }
+    | some (qs, passing) =>
+      let tol := rows.length + 2
+      let tab := (assignQ pep Float32.ofNat one thrPep es).1
+      let nearThr := tab.any fun rq => ulpDistF32 rq.2 thrPep ≤ tol
+      { model := renderResult passing qs
+        agree := withinUlps tol qs iqs && (passing == ip || nearThr)
+        spec := spec }
+
+/-- metamorphic: the implementation's two answers (original / permuted supply order) -/
+def permReply (psms : List (Psm κ ι Int)) (impl : List String) : Reply :=
+  let rows := rowsOf (competition botKey psms)
+  let tieFree := nodup (rows.map (·.score))
+  -- the model's prediction (`order_invariant`, ties included)
+  let model := "invariant"
+  if impl == ["panic"] then { model := model, agree := true, spec := "na" } else
+  match run (do let a ← pResult; let b ← pResult; pure (a, b)) impl with
+  | none => { model := "unparsed-impl-reply", agree := false, spec := "na" }
+  | some ((pa, qa), (pb, qb)) =>
+    let tol := rows.length + 2
+    let fa := qa.map f32OfBits
+    let fb := qb.map f32OfBits
+    let nearThr := fa.any fun q => ulpDistF32 q thrPep ≤ tol
+    let same := withinUlps tol fa fb && (pa == pb || nearThr)
+    if same then { model := model, agree := true, spec := "ok" }
+    else if tieFree then { model := model, agree := false, spec := "bad:order_dependent" }
+    else { model := model, agree := false, spec := "bad:order_dependent_tie" }
+
+end generic
+
+/-- `PrecursorId` in its derived `Ord` (`Combined(ix)` < `Charged((ix, charge))`, then the fields) as a
+    number, times two plus the decoy bit: unique per map key `(id, decoy)`; rows that tie in score and
+    decoy flag compare by `id` exactly as these numbers do -/
+def precIx (kind ix charge : Nat) (decoy : Bool) : Nat :=
+  2 * (kind * 2^40 + ix * 256 + charge) + (if decoy then 1 else 0)
+
+/-- precursor entries: `(row index, decoy, total_cmp key of (score as f32))` -/
+def pPeaks : P (List (Nat × Bool × Int)) :=
+  list (do
+    let kind ← nat
+    let ix ← nat
+    let charge ← nat
+    let decoy ← bool
+    let s ← f64
+    pure (precIx kind ix charge decoy, decoy, scoreKey s.toFloat32.toBits.toNat))
+
+def precPsms (entries : List (Nat × Bool × Int)) : List (Psm Nat Nat Int) :=
+  entries.map fun e => { key := e.1, decoy := e.2.1, ix := e.1, score := e.2.2 }
+
 def handle (op : String) (args impl : List String) : Option Reply :=
   match op with
+  | "pickpep" => do
+    let ((gd, _, peps), feats) ← run (do let d ← pDb; let f ← pFeats; pure (d, f)) args
+    let psms ← pepPsms gd peps feats
+    pure (pickReply psms impl)
+  | "pickprot" => do
+    let ((gd, tag, peps), feats) ← run (do let d ← pDb; let f ← pFeats; pure (d, f)) args
+    let psms ← protPsms gd tag peps feats
+    pure (pickReply psms impl)
+  | "permpep" => do
+    let ((gd, _, peps), feats, perm) ← run (do let d ← pDb; let f ← pFeats; let p ← list nat; pure (d, f, p)) args
+    if !isPerm feats.length perm then failure
+    let psms ← pepPsms gd peps feats
+    pure (permReply psms impl)
+  | "permprot" => do
+    let ((gd, tag, peps), feats, perm) ← run (do let d ← pDb; let f ← pFeats; let p ← list nat; pure (d, f, p)) args
+    if !isPerm feats.length perm then failure
+    let psms ← protPsms gd tag peps feats
+    pure (permReply psms impl)
+  | "pickprec" => do
+    let entries ← run pPeaks args
+    let psms := precPsms entries
+    let zero : Float32 := 0
+    let one : Float32 := 1
+    match run (do let r ← pResult; let o ← list nat; pure (r, o)) impl with
+    | none => pure { model := "unparsed-impl-reply", agree := false, spec := "na" }
+    | some ((ip, iq), _ord) =>
+      let spec := specVerdict negInfKey zero one thrPrec psms (iq.map f32OfBits) ip
+      -- rows in request order: the result does not depend on it (`order_invariant_precursor`)
+      let rows : List (Row Nat Int) := entries.map fun e => ⟨e.1, e.2.1, e.2.2⟩
+      let (tab, passing) := pickedPrecursor Float32.ofNat zero one thrPrec rows
+      let qs := entries.map fun e => (lookupQ tab e.1).getD one
+      let model := renderResult passing qs
+      -- exact: counts, casts and one division per row
+      pure { model := model, agree := words model == (toString ip :: toString iq.length :: iq.map toString), spec := spec }
+  | "permprec" => do
+    let (entries, perm) ← run (do let e ← pPeaks; let p ← list nat; pure (e, p)) args
+    if !isPerm entries.length perm then failure
+    let tieFree := nodup (entries.map (·.2.2))
+    match run (do let a ← pResult; let b ← pResult; pure (a, b)) impl with
+    | none => pure { model := "unparsed-impl-reply", agree := false, spec := "na" }
+    | some (a, b) =>
+      if a == b then pure { model := "invariant", agree := true, spec := "ok" }
+      else if tieFree then pure { model := "invariant", agree := false, spec := "bad:order_dependent" }
+      else pure { model := "invariant", agree := false, spec := "bad:order_dependent_tie" }
   | _ => none
 
 end Sage.C13
